@@ -909,3 +909,79 @@ func runC01Alias(h *H) {
 		h.Stat("alias.block")
 	}
 }
+
+// C18, type classes at their boundaries: a block column spelled Decimal(P, S) / DecimalN(S) must bind to a decimal
+// target of the same storage class only (ClickHouse's documented classes 1-9 / 10-18 / 19-38 / 39-76 digits);
+// any other class must be an error and must leave the target without data.
+func init() { runners["c18cross"] = runC18Cross }
+
+func runC18Cross(h *H) {
+	mks := []func() proto.Column{
+		func() proto.Column { return new(proto.ColDecimal32) }, func() proto.Column { return new(proto.ColDecimal64) },
+		func() proto.Column { return new(proto.ColDecimal128) }, func() proto.Column { return new(proto.ColDecimal256) },
+	}
+	classOf := func(p int) int {
+		switch {
+		case p <= 9:
+			return 0
+		case p <= 18:
+			return 1
+		case p <= 38:
+			return 2
+		default:
+			return 3
+		}
+	}
+	precs := []int{1, 9, 10, 18, 19, 38, 39, 76}
+	wrappers := []string{"%s", "Nullable(%s)", "Array(%s)"}
+	for i := 0; i < h.N; i++ {
+		p := precs[i%len(precs)]
+		cls := classOf(p)
+		typ := fmt.Sprintf([]string{"Decimal(%d, %d)", "Decimal(%d,%d)"}[h.R.Intn(2)], p, h.R.Intn(p+1))
+		tcls := (i / len(precs)) % 4
+		rows := 1 + h.R.Intn(3)
+		src := mks[cls]()
+		_ = c14Fill(src, rows, rand.New(rand.NewSource(h.R.Int63())), c14ColSpec{})
+		wrap := wrappers[h.R.Intn(len(wrappers))]
+		var in, target proto.Column
+		switch wrap {
+		case "%s":
+			in, target = proto.Alias(src, proto.ColumnType(typ)), mks[tcls]()
+		default:
+			// Nullable / Array of the decimal, built through inference of the class's own canonical name
+			names := []string{"Decimal32", "Decimal64", "Decimal128", "Decimal256"}
+			a, b := new(proto.ColAuto), new(proto.ColAuto)
+			if a.Infer(proto.ColumnType(fmt.Sprintf(wrap, names[cls]))) != nil || b.Infer(proto.ColumnType(fmt.Sprintf(wrap, names[tcls]))) != nil {
+				continue
+			}
+			_ = c14Fill(a.Data, rows, rand.New(rand.NewSource(h.R.Int63())), c14ColSpec{})
+			in, target = proto.Alias(a.Data, proto.ColumnType(fmt.Sprintf(wrap, typ))), b.Data
+		}
+		name := fmt.Sprintf("cross %q into class %d rows=%d", fmt.Sprintf(wrap, typ), tcls, rows)
+		var buf proto.Buffer
+		blk := proto.Block{Columns: 1, Rows: rows}
+		if err := blk.EncodeBlock(&buf, proto.Version, []proto.InputColumn{{Name: "v", Data: in}}); err != nil {
+			h.Emit(name, "-", "FAIL:encode failed: "+sanitize(err.Error()))
+			continue
+		}
+		oracle := "ok"
+		func() {
+			defer func() {
+				if r := recover(); r != nil {
+					oracle = fmt.Sprintf("FAIL:binding %s panicked: %v", typ, r)
+				}
+			}()
+			r := proto.NewReader(bytes.NewReader(buf.Buf))
+			var b2 proto.Block
+			err := b2.DecodeBlock(r, proto.Version, proto.Results{{Name: "v", Data: target}})
+			switch {
+			case cls == tcls && err != nil:
+				oracle = fmt.Sprintf("FAIL:type: %s rejected by a target of its own class: %s", fmt.Sprintf(wrap, typ), sanitize(err.Error()))
+			case cls != tcls && err == nil:
+				oracle = fmt.Sprintf("FAIL:type: %s (class %d) bound to a decimal target of class %d without an error; the target holds %d rows of foreign data", fmt.Sprintf(wrap, typ), cls, tcls, target.Rows())
+			}
+		}()
+		h.Emit(name, "-", oracle)
+		h.Stat("cross.decimal")
+	}
+}
